@@ -27,6 +27,9 @@ const (
 
 // closureBinding returns the canonical origin (in the parent) of a closure's free variable.
 func closureBinding(parent, closure *ssa.Function, name string) string {
+	if holderAllocOf(parent, closure, name) != nil {
+		return "alloc:" + name
+	}
 	if ei := envMethods[closure]; ei != nil {
 		// method form: the receiver is bound to the parent's struct variable by
 		// reference (pointer receiver) and the field is that variable's field
@@ -74,6 +77,9 @@ func closureBinding(parent, closure *ssa.Function, name string) string {
 // captured variables by what they are initialised with).
 func closureFreeInit(parent, closure *ssa.Function, freeName string) []ssa.Value {
 	var out []ssa.Value
+	if a := holderAllocOf(parent, closure, freeName); a != nil {
+		return structFieldInit(a, freeName)
+	}
 	if envMethods[closure] != nil {
 		mc := envMakeClosure(parent, closure)
 		if mc == nil || len(mc.Bindings) != 1 {
